@@ -1,5 +1,5 @@
 //! bounded(every Alonzo, Babbage and Conway transaction fixture under /repo/test_data, each with its phase-2 validity flag set to true and
-//! to false, plus a copy with a duplicated input): a valid transaction consumes its inputs, each reference once, and produces its outputs
+//! to false, and again with its inputs replaced by [A, B, A] and its collateral by [B, A, B, A] — repetitions that are not adjacent): a valid transaction consumes its inputs, each reference once, and produces its outputs
 //! at 0..n-1; a failed one consumes only its collateral inputs and produces only its collateral return, at index n; produces_at agrees
 //! with produces at every index 0..n+1; the sorted input set is strictly increasing in (tx id, index) and covers exactly the inputs.
 //! Exit 1 with the first failing fixture if not.
@@ -49,12 +49,34 @@ fn main() {
         if name.starts_with("alonzo") {
             let Ok(mut tx) = minicbor::decode::<alonzo::Tx>(&bytes) else { continue };
             for v in [true, false] { tx.success = v; check(&name, &MultiEraTx::from_alonzo_compatible(&tx, Era::Alonzo), v, &mut n); }
+            // the same transaction with an input (and a collateral input) listed again, NOT next to its first occurrence: [A, B, A]
+            if let Some(a) = tx.transaction_body.inputs.first().cloned() {
+                let mut b = a.clone(); b.index = b.index.wrapping_add(7);
+                let body = &mut *tx.transaction_body;
+                body.inputs = vec![a.clone(), b.clone(), a.clone()];
+                body.collateral = Some(vec![b.clone(), a.clone(), b.clone(), a.clone()]);
+                for v in [true, false] { tx.success = v; check(&format!("{name} with inputs [A, B, A]"), &MultiEraTx::from_alonzo_compatible(&tx, Era::Alonzo), v, &mut n); }
+            }
         } else if name.starts_with("babbage") {
             let Ok(mut tx) = minicbor::decode::<babbage::Tx>(&bytes) else { continue };
             for v in [true, false] { tx.success = v; check(&name, &MultiEraTx::from_babbage(&tx), v, &mut n); }
+            if let Some(a) = tx.transaction_body.inputs.first().cloned() {
+                let mut b = a.clone(); b.index = b.index.wrapping_add(7);
+                let body = &mut *tx.transaction_body;
+                body.inputs = vec![a.clone(), b.clone(), a.clone()];
+                body.collateral = Some(vec![b.clone(), a.clone(), b.clone(), a.clone()]);
+                for v in [true, false] { tx.success = v; check(&format!("{name} with inputs [A, B, A]"), &MultiEraTx::from_babbage(&tx), v, &mut n); }
+            }
         } else if name.starts_with("conway") {
             let Ok(mut tx) = minicbor::decode::<conway::Tx>(&bytes) else { continue };
             for v in [true, false] { tx.success = v; check(&name, &MultiEraTx::from_conway(&tx), v, &mut n); }
+            if let Some(a) = tx.transaction_body.inputs.first().cloned() {
+                let mut b = a.clone(); b.index = b.index.wrapping_add(7);
+                let body = &mut *tx.transaction_body;
+                body.inputs = vec![a.clone(), b.clone(), a.clone()].into();
+                body.collateral = pallas_codec::utils::NonEmptySet::from_vec(vec![b.clone(), a.clone(), b.clone(), a.clone()]);
+                for v in [true, false] { tx.success = v; check(&format!("{name} with inputs [A, B, A]"), &MultiEraTx::from_conway(&tx), v, &mut n); }
+            }
         }
     }
     if n < 10 { eprintln!("only {n} fixture checks ran"); std::process::exit(2); }
